@@ -3,6 +3,7 @@ package exec
 import (
 	"fmt"
 	"sort"
+	"strings"
 	"testing"
 
 	"pgregory.net/rapid"
@@ -164,6 +165,27 @@ func TestC02(t *testing.T) {
 		}
 		if len(c.Rename) > 0 {
 			cl = append(cl, "registered-field-renames")
+		}
+		for _, gt := range c.GoType {
+			if gt == "Vee" {
+				cl = append(cl, "by-value-go-type-in-schema")
+				if exp != nil && !exp.Rejected {
+					hit := false
+					for call := range exp.Calls { // "node/field"
+						var id int
+						var fn string
+						if _, err := fmt.Sscanf(strings.Replace(call, "/", " ", 1), "%d %s", &id, &fn); err == nil && id < len(c.Graph.Nodes) {
+							if sl := slotFor(c, c.Graph.Nodes[id].Type, fn); sl == "vals" || sl == "val" {
+								hit = true
+							}
+						}
+					}
+					if hit {
+						cl = append(cl, "typed-slot-of-struct-values-resolved")
+					}
+				}
+				break
+			}
 		}
 		for k := range c.Rename {
 			_ = k
